@@ -6,8 +6,8 @@ HERE = os.path.dirname(os.path.abspath(__file__))
 # id -> dict(level, text, note, technique, design_ref)   (only properties whose check is built)
 CLAIMED = {
  "C01": dict(level="model_checking", design="4.1",
-   text="Exhaustive enumeration of bounded source-text spaces (all strings over a 36-character alphabet up to length 3/4 plus a 20-character core one longer; all sequences over a 66-token alphabet up to length 3/4 plus a 24-token core one longer; 13 nesting constructs x depth 1..64 x 4 endings; the complete one-token-edit neighbourhood of every seed program), each run through the real Scanner/Parser/Compiler in watchdogged worker processes; plus every <=2-token tail run through the binary for 'diagnostics => not executed'.",
-   note="Texts outside the alphabets/length bounds are not covered (no sampling). Non-termination is decided up to a 20 s per-case horizon. Trusts rustc/cargo and the harness's own enumerators.",
+   text="Exhaustive enumeration of bounded source-text spaces (all strings over a 54-character alphabet up to length 3/4 plus a 20-character core one longer; all sequences over a 66-token alphabet up to length 3/4 plus a 24-token core one longer; 13 nesting constructs x depth 1..64 x 4 endings; the complete one-token-edit neighbourhood of every seed program), each run through the real Scanner/Parser/Compiler in watchdogged worker processes; plus every <=2-token tail run through the binary for 'diagnostics => not executed'.",
+   note="Texts outside the alphabets/length bounds are not covered (no sampling). Non-termination is decided up to a 5 s per-case horizon. Trusts rustc/cargo and the harness's own enumerators.",
    technique="bounded exhaustive input enumeration on the real front end (stateless exploration, crash/hang attribution per case)"),
 }
 NOT_YET = "check not built yet in this round (machinery under construction; see DESIGN.md section 4 for the planned check)"
